@@ -7,12 +7,13 @@
     automata are the tables of gen/Merge34_gen.v, regenerated from the header on every run).  A sequence is the
     list of its unconsumed elements; a result [Some (out, st')] = elements written + remaining sequences; [None] =
     the code would read at/after an end.  The loser trees enter through the interface [gtree_ok] / [utree_ok]
-    (winner = live source with minimal head; stable: smallest index among equivalent); the theorems hold for any
-    trees meeting it. *)
-From Coq Require Import List Sorting.Sorted.
+    (winner = live source with minimal head; stable: smallest index among equivalent; [gsize]/[usize]/[ukey] are the
+    side conditions under which a tree is specified, collected in [side_ok]); the theorems hold for any trees
+    meeting it.  The last five theorems instantiate it with C09's model of tlx/container/loser_tree.hpp. *)
+From Coq Require Import List NArith Sorting.Sorted.
 From TLXV Require Import Common.Order C05.AutoDefs gen.Merge34_gen C05.StableMerge C05.Model C05.MergeFacts
      C05.MergeAdvProofs C05.AutoProofs C05.AutoSweep C05.LoserLoopProofs C05.UnguardedProofs C05.CombinedProofs C05.BaseProofs
-     C05.BubbleProofs C05.RefTreeProofs C05.Final.
+     C05.BubbleProofs C05.RefTreeProofs C05.Final C09.LoserTree C05.C09Model C05.C09Instance.
 Import ListNotations.
 
 (** Stable entry points (stable_multiway_merge, stable_multiway_merge_sentinels), every algorithm, every k, every
@@ -20,27 +21,29 @@ Import ListNotations.
     inputs are left where that merge leaves them.  No read past an end ([Some]). *)
 Theorem C05_stable_variants :
   forall (A : Type) (ltb : A -> A -> bool), SWO ltb ->
-  forall GT gt_init gt_min gt_dmi grep, gtree_ok ltb (GT:=GT) gt_init gt_min gt_dmi grep ->
-  forall UT ut_init ut_min ut_dmi urep, utree_ok ltb (UT:=UT) ut_init ut_min ut_dmi urep ->
+  forall GT gt_init gt_min gt_dmi grep gsize, gtree_ok ltb (GT:=GT) gsize gt_init gt_min gt_dmi grep ->
+  forall UT ut_init ut_min ut_dmi urep usize ukey, utree_ok ltb (UT:=UT) usize ukey ut_init ut_min ut_dmi urep ->
   forall sentinels alg st sents len,
     inputs_ok ltb st -> len <= total st -> (sentinels = true -> sent_ok ltb st sents) ->
+    side_ok gsize usize ukey alg sentinels st sents ->
     mwm_base ltb GT gt_init gt_min gt_dmi UT ut_init ut_min ut_dmi true sentinels alg st sents len =
     Some (firstn len (gmerge ltb st), snd (msteps ltb len st)).
-Proof. exact (fun A ltb H GT gi gm gd gr Gok UT ui um ud ur Uok => mwm_stable ltb H GT gi gm gd gr Gok UT ui um ud ur Uok). Qed.
+Proof. exact (fun A ltb H GT gi gm gd gr gs Gok UT ui um ud ur us uk Uok => mwm_stable ltb H GT gi gm gd gr gs Gok UT ui um ud ur us uk Uok). Qed.
 Print Assumptions C05_stable_variants.
 
 (** The same with elements that remember (sequence index, position): the output is [firstn len (smerge inputs)],
     i.e. equivalent elements are ordered by sequence index and then by position. *)
 Theorem C05_stable_by_index_then_position :
   forall (A : Type) (ltb : A -> A -> bool), SWO ltb ->
-  forall GT gt_init gt_min gt_dmi grep, gtree_ok (ltb3 ltb) (GT:=GT) gt_init gt_min gt_dmi grep ->
-  forall UT ut_init ut_min ut_dmi urep, utree_ok (ltb3 ltb) (UT:=UT) ut_init ut_min ut_dmi urep ->
+  forall GT gt_init gt_min gt_dmi grep gsize, gtree_ok (ltb3 ltb) (GT:=GT) gsize gt_init gt_min gt_dmi grep ->
+  forall UT ut_init ut_min ut_dmi urep usize ukey, utree_ok (ltb3 ltb) (UT:=UT) usize ukey ut_init ut_min ut_dmi urep ->
   forall sentinels alg (ls : list (list A)) tsents len,
     Forall (fun l => sortedb ltb l = true) ls -> len <= total ls ->
     (sentinels = true -> sent_ok (ltb3 ltb) (tag_all ls) tsents) ->
+    side_ok gsize usize ukey alg sentinels (tag_all ls) tsents ->
     mwm_base (ltb3 ltb) GT gt_init gt_min gt_dmi UT ut_init ut_min ut_dmi true sentinels alg (tag_all ls) tsents len =
     Some (firstn len (smerge ltb ls), snd (msteps (ltb3 ltb) len (tag_all ls))).
-Proof. exact (fun A ltb H GT gi gm gd gr Gok UT ui um ud ur Uok => mwm_stable_positions ltb H GT gi gm gd gr Gok UT ui um ud ur Uok). Qed.
+Proof. exact (fun A ltb H GT gi gm gd gr gs Gok UT ui um ud ur us uk Uok => mwm_stable_positions ltb H GT gi gm gd gr gs Gok UT ui um ud ur us uk Uok). Qed.
 Print Assumptions C05_stable_by_index_then_position.
 
 (** All entry points, in particular the unstable ones (multiway_merge, multiway_merge_sentinels): exactly [len]
@@ -48,16 +51,17 @@ Print Assumptions C05_stable_by_index_then_position.
     every element written is <= every element left in the inputs. *)
 Theorem C05_all_variants :
   forall (A : Type) (ltb : A -> A -> bool), SWO ltb ->
-  forall GT gt_init gt_min gt_dmi grep, gtree_ok ltb (GT:=GT) gt_init gt_min gt_dmi grep ->
-  forall UT ut_init ut_min ut_dmi urep, utree_ok ltb (UT:=UT) ut_init ut_min ut_dmi urep ->
+  forall GT gt_init gt_min gt_dmi grep gsize, gtree_ok ltb (GT:=GT) gsize gt_init gt_min gt_dmi grep ->
+  forall UT ut_init ut_min ut_dmi urep usize ukey, utree_ok ltb (UT:=UT) usize ukey ut_init ut_min ut_dmi urep ->
   forall stable sentinels alg st sents len,
     inputs_ok ltb st -> len <= total st -> (sentinels = true -> sent_ok ltb st sents) ->
+    side_ok gsize usize ukey alg sentinels st sents ->
     exists out st', mwm_base ltb GT gt_init gt_min gt_dmi UT ut_init ut_min ut_dmi stable sentinels alg st sents len = Some (out, st') /\
       length out = len /\
       StronglySorted (sorted_rel ltb) out /\
       (exists ps, length ps = length st /\ interleave ps out /\ forall s, nth s st [] = nth s ps [] ++ nth s st' []) /\
       (forall x l y, In x out -> In l st' -> In y l -> ltb y x = false).
-Proof. exact (fun A ltb H GT gi gm gd gr Gok UT ui um ud ur Uok => mwm_any ltb H GT gi gm gd gr Gok UT ui um ud ur Uok). Qed.
+Proof. exact (fun A ltb H GT gi gm gd gr gs Gok UT ui um ud ur us uk Uok => mwm_any ltb H GT gi gm gd gr gs Gok UT ui um ud ur us uk Uok). Qed.
 Print Assumptions C05_all_variants.
 
 (** The generated 3-way / 4-way automata (finite sweep over the regenerated tables, closed by vm_compute): guarded
@@ -107,7 +111,74 @@ Print Assumptions C05_merge_advance.
     and the model as run there returns the stable merge. *)
 Theorem C05_reference_tournament :
   forall (A : Type) (ltb : A -> A -> bool), SWO ltb ->
-    gtree_ok ltb (@rgt_init A) (rgt_min ltb) (rgt_dmi ltb) ref_grep /\
-    utree_ok ltb (@rut_init A) (rut_min ltb) (rut_dmi ltb) ref_urep.
+    gtree_ok ltb (fun _ => True) (@rgt_init A) (rgt_min ltb) (rgt_dmi ltb) ref_grep /\
+    utree_ok ltb (fun _ => True) (fun _ _ => True) (@rut_init A) (rut_min ltb) (rut_dmi ltb) ref_urep.
 Proof. exact (fun A ltb H => conj (ref_gtree_ok ltb H) (ref_utree_ok ltb H)). Qed.
 Print Assumptions C05_reference_tournament.
+
+(* ---------------------------------------------------------------------------------------------------- *)
+(** * No abstract tree left: the loser trees are C09's model of tlx/container/loser_tree.hpp
+      ([c9_mwm ltb dkey ptr] = multiway_merge_base over [LoserTree.lt_build / lt_min_source / lt_delete_min_insert],
+      [ptr] selecting the pointer- or copy-based classes, [dkey] = ValueType()). *)
+
+(** C09's trees, driven as multiway_merge_loser_tree / _unguarded drive them, meet the interface: the guarded
+    classes for every input with 1 <= k <= 2^30; the unguarded classes under their documented precondition
+    "the sentinel is not less than any key handed in" ([c9_ukey]). *)
+Theorem C05_c09_trees_meet_the_interface :
+  forall (A : Type) (ltb : A -> A -> bool) (dkey : A) (ptr : bool), SWO ltb ->
+    gtree_ok ltb c9_size (c9g_init ltb dkey ptr) (c9g_min dkey) (c9g_dmi ltb dkey) (c9_grep ltb dkey ptr) /\
+    utree_ok ltb c9_size (c9_ukey ltb) (c9u_init ltb dkey ptr) (c9u_min dkey) (c9u_dmi ltb dkey) (c9_urep ltb dkey ptr).
+Proof. exact (fun A ltb dkey ptr H => conj (c9_gtree_ok ltb dkey ptr H) (c9_utree_ok ltb dkey ptr H)). Qed.
+Print Assumptions C05_c09_trees_meet_the_interface.
+
+(** MWMA_LOSER_TREE over the C09 trees (any k <= 2^30, both tree kinds, sentinels or none): the stable merge. *)
+Theorem C05_c09_loser_tree :
+  forall (A : Type) (ltb : A -> A -> bool), SWO ltb -> forall (dkey : A) (ptr : bool),
+  forall sentinels st sents len,
+    inputs_ok ltb st -> len <= total st -> (sentinels = true -> sent_ok ltb st sents) ->
+    (N.of_nat (length st) <= 2 ^ 30)%N ->
+    c9_mwm ltb dkey ptr true sentinels MWMA_LOSER_TREE st sents len =
+    Some (firstn len (gmerge ltb st), snd (msteps ltb len st)).
+Proof. exact (@c9_loser_tree_stable). Qed.
+Print Assumptions C05_c09_loser_tree.
+
+(** Every algorithm over the C09 trees, stable entry points.  [c9_covered]: k <= 2^30, and where an UNGUARDED
+    tree runs (k >= 5): MWMA_LOSER_TREE_SENTINEL - no sentinel greater than the first sequence's sentinel (e.g.
+    all equal); MWMA_LOSER_TREE_COMBINED - no element greater than the last element of sequence 0 (C09's key
+    precondition; the general case needs the lemma named in C05/C09Instance.v). *)
+Theorem C05_c09_stable_variants :
+  forall (A : Type) (ltb : A -> A -> bool), SWO ltb -> forall (dkey : A) (ptr : bool),
+  forall sentinels alg st sents len,
+    inputs_ok ltb st -> len <= total st -> (sentinels = true -> sent_ok ltb st sents) ->
+    c9_covered ltb alg sentinels st sents ->
+    c9_mwm ltb dkey ptr true sentinels alg st sents len =
+    Some (firstn len (gmerge ltb st), snd (msteps ltb len st)).
+Proof. exact (@c9_mwm_stable). Qed.
+Print Assumptions C05_c09_stable_variants.
+
+Theorem C05_c09_all_variants :
+  forall (A : Type) (ltb : A -> A -> bool), SWO ltb -> forall (dkey : A) (ptr : bool),
+  forall stable sentinels alg st sents len,
+    inputs_ok ltb st -> len <= total st -> (sentinels = true -> sent_ok ltb st sents) ->
+    c9_covered ltb alg sentinels st sents ->
+    exists out st', c9_mwm ltb dkey ptr stable sentinels alg st sents len = Some (out, st') /\
+      length out = len /\
+      StronglySorted (sorted_rel ltb) out /\
+      (exists ps, length ps = length st /\ interleave ps out /\ forall s, nth s st [] = nth s ps [] ++ nth s st' []) /\
+      (forall x l y, In x out -> In l st' -> In y l -> ltb y x = false).
+Proof. exact (@c9_mwm_any). Qed.
+Print Assumptions C05_c09_all_variants.
+
+(** MWMA_LOSER_TREE_COMBINED (and everything else) over the C09 GUARDED tree and any unguarded tree meeting the
+    unconditional interface, e.g. the reference tournament: no condition on the keys. *)
+Theorem C05_c09_guarded_tree_any_unguarded :
+  forall (A : Type) (ltb : A -> A -> bool), SWO ltb -> forall (dkey : A) (ptr : bool),
+  forall UT ut_init ut_min ut_dmi urep,
+    utree_ok ltb (UT:=UT) (fun _ => True) (fun _ _ => True) ut_init ut_min ut_dmi urep ->
+  forall sentinels alg st sents len,
+    inputs_ok ltb st -> len <= total st -> (sentinels = true -> sent_ok ltb st sents) ->
+    (N.of_nat (length st) <= 2 ^ 30)%N ->
+    mwm_base ltb CT (c9g_init ltb dkey ptr) (c9g_min dkey) (c9g_dmi ltb dkey) UT ut_init ut_min ut_dmi
+             true sentinels alg st sents len = Some (firstn len (gmerge ltb st), snd (msteps ltb len st)).
+Proof. exact (@c9_guarded_any_unguarded_stable). Qed.
+Print Assumptions C05_c09_guarded_tree_any_unguarded.
